@@ -446,7 +446,16 @@ def gen_api_status():
     if "WriteResult::from_repr" not in aw:
         raise ExtractError("no function in api/src/write.rs decodes the status with WriteResult::from_repr")
     # arms of the match on the decoded status, with or without the `Some(..)` wrapper
-    arms = re.findall(r"(?:Some\(\s*)?WriteResult::(\w+)\s*\)?\s*=>\s*(Ok\(\s*\(\)\s*\)|Err\(\s*(?:\w+::)*(\w+)\s*\))", aw)
+    arms = []
+    for st, rhs in re.findall(r"WriteResult::(\w+)\s*\)?\s*=>\s*([^,]+),", aw):
+        rhs = rhs.strip()
+        if re.search(r"\bOk\(\s*\(\)\s*\)", rhs):
+            arms.append((st, "Ok()", ""))
+        else:
+            mm = re.search(r"(?:\w+::)+(\w+)\s*\)?$", rhs)
+            if not mm:
+                raise ExtractError("status arm `%s => %s` not understood" % (st, rhs[:60]))
+            arms.append((st, "Err", mm.group(1)))
     # what an unknown number becomes: a `None` / `_` arm, or the `else` of a `let Some(..) = .. else`, or a combinator default
     none = (re.search(r"\b(?:None|_)\s*=>\s*(?:return\s+)?Err\(\s*(?:\w+::)*(\w+)\s*\)", aw)
             or re.search(r"from_repr\([^;{]*\)\s*else\s*\{\s*return\s+Err\(\s*(?:\w+::)*(\w+)\s*\)", aw)
@@ -529,7 +538,7 @@ def gen_structure():
         raise ExtractError("struct Context not found")
     fields = re.findall(r"^\s*(?:pub(?:\([a-z]+\))?\s+)?([a-z_][a-z0-9_]*)\s*:(?!:)", m.group(1), flags=re.M)
     # Context::new: explicitly set fields, rest from Default
-    m = re.search(r"fn\s+new\s*\(([^)]*)\)\s*->\s*Self\s*\{\s*Context\s*\{(.*?)\}\s*\}", lib, flags=re.S)
+    m = re.search(r"fn\s+new\s*\(([^)]*)\)\s*->\s*(?:Self|Context)\s*\{\s*(?:Context|Self)\s*\{(.*?)\}\s*\}", lib, flags=re.S)
     if not m:
         raise ExtractError("Context::new not found")
     new_body = m.group(2)
@@ -563,7 +572,8 @@ def gen_structure():
                 if not mm2:
                     raise ExtractError("%s: cannot read the struct-update entry %r" % (fn_name, ent))
                 fld, rhs = mm2.group(1), (mm2.group(2) or mm2.group(1)).strip()
-                if rhs in taken and taken[rhs] == fld:
+                inline_take = re.fullmatch(r"(?:std::)?mem::take\(\s*&mut\s+%s\.(\w+)\s*\)" % cv, rhs)
+                if (rhs in taken and taken[rhs] == fld) or (inline_take and inline_take.group(1) == fld):
                     carried.append(fld)
                 else:
                     assigned.append(fld)
